@@ -176,6 +176,50 @@ func genC01(g *gen) {
 	} else {
 		g.note("Decrypt not found")
 	}
+	// the locked region that advances the window re-tests it first
+	recheck := false
+	if fd != nil && fd.Body != nil {
+		for _, wp := range fieldWrites(fd, "recvNonce") {
+			var lastLock token.Pos
+			for _, st := range fd.Body.List {
+				if st.Pos() > wp {
+					break
+				}
+				if isMuCall(st, "Lock") {
+					lastLock = st.Pos()
+				}
+			}
+			for _, st := range fd.Body.List {
+				is, ok := st.(*ast.IfStmt)
+				if !ok || st.Pos() < lastLock || st.Pos() > wp || len(is.Body.List) == 0 {
+					continue
+				}
+				if _, ok := is.Body.List[len(is.Body.List)-1].(*ast.ReturnStmt); !ok {
+					continue
+				}
+				mentions := false
+				check := func(n ast.Node) {
+					if n == nil {
+						return
+					}
+					ast.Inspect(n, func(m ast.Node) bool {
+						if sel, ok := m.(*ast.SelectorExpr); ok && sel.Sel.Name == "recvNonce" {
+							mentions = true
+						}
+						return true
+					})
+				}
+				if is.Init != nil {
+					check(is.Init)
+				}
+				check(is.Cond)
+				if mentions {
+					recheck = true
+				}
+			}
+		}
+	}
+	g.line("Definition gen_c01_commit_region_retests_window : bool := %s.", coqBool(recheck))
 	g.line("Definition gen_c01_open_calls : N := %s.", itoa(opens))
 	g.line("Definition gen_c01_recv_writes_before_open : N := %s.", itoa(before))
 	g.line("Definition gen_c01_recv_writes_after_open_locked : N := %s.", itoa(afterLocked))
